@@ -273,6 +273,10 @@ func RunC11Scenario(sc *Scenario) (vd *Verdict) {
 		return
 	}
 	for _, rc := range s.Races {
+		if strings.HasPrefix(rc, "runner.scheduledJobs") {
+			fail(viol("C11", "lockset-race", "runner.scheduledJobs:"+raceSites(rc), "the runner's map of scheduled jobs is read and written by concurrent requests without a common lock (concurrent map writes end the process): %s", rc))
+			return
+		}
 		if strings.HasPrefix(rc, "raffle.running") {
 			fail(viol("C11", "lockset-race", "raffle.running:"+raceSites(rc), "the map of running jobs is read and written by concurrent goroutines without a common lock (a concurrent map read and write ends the process): %s", rc))
 			return
